@@ -190,7 +190,18 @@ def _harness(tier, seed):
                         er = EndResult(algo, inst.name, objn, enc, rng.randint(0, 2 ** 62), int(objv.evaluate(y)),
                                        rng.randint(1, fes), rng.randint(0, 1000), fes, rng.randint(1000, 10 ** 6), goal,
                                        fes if (budget_mode == "all" or (budget_mode == "mixed" and ai != 0)) else None, None)
-                        records.append(pr_.from_packing_and_end_result(er, y))
+                        rec_ = pr_.from_packing_and_end_result(er, y)
+                        if tab % 3 == 2:
+                            # further evaluated objectives whose value or bounds are zero / negative / non-integral (the
+                            # seven bundled ones are all positive integers): one common set for the whole table
+                            ob_ = dict(rec_.objectives)
+                            bd_ = dict(rec_.objective_bounds)
+                            ob_["balance"], bd_["balance.lowerBound"], bd_["balance.upperBound"] = 0, -10, 10
+                            ob_["wastedArea"], bd_["wastedArea.lowerBound"], bd_["wastedArea.upperBound"] = 0.0, 0, 7.5
+                            ob_["slack"], bd_["slack.lowerBound"], bd_["slack.upperBound"] = -3, -3, 0
+                            rec_ = pr_.PackingResult(rec_.end_result, rec_.n_items, rec_.n_different_items, rec_.bin_width,
+                                                     rec_.bin_height, ob_, bd_, dict(rec_.bin_bounds))
+                        records.append(rec_)
             f = os.path.join(scratch, f"res{tab}.csv")
             info = {"algorithms": algos, "instances": [i.name for i in insts], "budget_column": budget_mode, "goal": goal_mode,
                     "records": len(records)}
